@@ -94,8 +94,9 @@ type ChanV struct{ c *ChanObj }
 
 // BigV is the cell content of a math/big.Int (concrete only in BV mode).
 type BigV struct {
-	v   *big.Int
-	sym *ITerm // Int-mode symbolic value (nil => concrete v)
+	v    *big.Int
+	sym  *ITerm  // Int-mode symbolic value
+	bsym []*Term // BV-mode symbolic non-negative magnitude as big-endian bytes (compare-only arithmetic)
 }
 
 func (e *Engine) width(t types.Type) int {
@@ -232,6 +233,9 @@ func copyVal(v Value) Value {
 	case *BigV:
 		if x.sym != nil {
 			return &BigV{sym: x.sym}
+		}
+		if x.bsym != nil {
+			return &BigV{bsym: x.bsym}
 		}
 		return &BigV{v: new(big.Int).Set(x.v)}
 	}
